@@ -190,10 +190,10 @@ def _find_curve_coord(ex, vals, line):
     (the table is finite: injectivity of the 17 OIDs and encoded_oid == enc_oid(oid) are closed-term checks of C09)"""
     W = ex.W
     o = vals["oid_curve"]
-    if ex.choose(2) == 1:
-        raise PyRaise(UNKCURVE, (), line)
-    ex.assume(SBool(o.t == W["curve"].fields["oid"].t) if isinstance(o, sym.SOid) else False)
-    return W["curve"]
+    # the world's curve is an entry of the table: found iff the OID is its OID (another OID: some other curve or UnknownCurveError)
+    if isinstance(o, sym.SOid) and ex.branch(SBool(o.t == W["curve"].fields["oid"].t)):
+        return W["curve"]
+    raise PyRaise(UNKCURVE, (), line)
 
 
 def _fse_coord(ex, vals, line):
@@ -428,3 +428,142 @@ def c10_bounded(tier, seed):
                     shown["curve"] = Recipe(curve_expr)
                 found.setdefault("%s#no-escape(%s)" % (name, short(en)), (shown, "raised %s: %s" % (en, str(e)[:120])))
     return n, found, [dict(inputs=n)]
+
+
+# ---- DER round trip of public keys: from_der(to_der(k)) == k, with the decoders' completeness supplied by the proved
+#      round-trip lemmas of C11 (used as hints) ----------------------------------------------------------------------------------
+@lemma("C09.public_key_der_roundtrip", props=["C09"], inline=[VK + "from_der"])
+def _(ex):
+    ex.coord_world = True
+    KL.CUR["ex"] = ex
+    try:
+        vk = mk_vk(ex, cof1=True)
+        W = ex.W
+        world_oids(ex, W)
+        ex.extra_axioms = KL.world_axioms(W) + sym.oid_facts()
+        enc = ("uncompressed", "compressed", "hybrid")[ex.choose(3)]
+        p, x, y = T(W["p"]), T(W["x"]), T(W["y"])
+        if enc == "compressed":
+            yy = sym.MOD(sym.canon_mod_arg(y * y, p), p)
+            from contracts.numbertheory import QR
+            ex.pc.append(QR(yy, p))
+            ex.pc.append(z3.Implies(yy == 0, y == 0))
+        pb = ex.name_bytes(point_bytes(W, W["x"], W["y"], enc), "pointbytes")
+        pk_oid_const = sym.oid_const(real("ecdsa.util").oid_ecPublicKey)
+        pk_oid = SBytes(sym.ENCOID(pk_oid_const))
+        coid = W["curve"].fields["encoded_oid"]
+        alg_body = ex.name_bytes(cat(pk_oid, coid), "algbody")
+        alg = ex.name_bytes(S.enc_seq(alg_body), "alg")
+        bits = ex.name_bytes(S.enc_bits(pb, 0), "bits")
+        body = ex.name_bytes(cat(alg, bits), "body")
+        der_bytes = ex.name_bytes(S.enc_seq(body), "spki")
+        ex.assume(blen(der_bytes) < 2 ** 40)
+        ex.complete_hints = {
+            "ecdsa.der.remove_sequence": [("string", der_bytes, (body, b""), "der.roundtrip_sequence"), ("string", body, (alg_body, bits), "der.roundtrip_sequence")],
+            "ecdsa.der.remove_object": [("string", alg_body, (sym.SOid(pk_oid_const), coid), "OID codec (assumed)"),
+                                        ("string", coid, (W["curve"].fields["oid"], b""), "OID codec (assumed)")],
+            "ecdsa.der.remove_bitstring": [("string", bits, (pb, b""), "der.roundtrip_bitstring")],
+        }
+        try:
+            vk2 = ex.callq(VK + "from_der", ex.convert(real("ecdsa.keys").VerifyingKey), der_bytes)
+        except PyRaise as e:
+            ex.oblige("lemma:C09.public_key_der_roundtrip#reloads", False, "lemma", note="from_der(to_der(%s)) raised %s" % (enc, e.cls))
+            return
+        finally:
+            ex.complete_hints = {}
+        X, Y, Z = vk2.fields["pubkey"].fields["point"].fields["_PointJacobi__coords"]
+        if enc == "compressed":
+            Yt = T(Y)
+            ex.pc.append(z3.Implies(z3.And(0 <= Yt, Yt < p, sym.MOD(sym.canon_mod_arg(Yt * Yt, p), p) == sym.MOD(sym.canon_mod_arg(y * y, p), p), Yt % 2 == y % 2), Yt == y))
+        ex.oblige("lemma:C09.public_key_der_roundtrip#same-point", And_(eq(X, W["x"]), eq(Y, W["y"]), eq(Z, 1)), "lemma")
+        ex.oblige_decided("lemma:C09.public_key_der_roundtrip#same-curve", vk2.fields["curve"] is W["curve"], "sympy", "curve object")
+    finally:
+        ex.coord_world = False
+        KL.CUR["ex"] = None
+
+
+def c09_bounded(tier, seed):
+    """bounded stand-in: exact bytes against the specification encoders and all round trips (incl. the PEM armour), on the real curves"""
+    import ecdsa
+    import hashlib
+    import base64
+    found = {}
+    n = 0
+    curves = list(ecdsa.curves.curves)
+    for cv in curves:
+        N = cv.order
+        p = cv.curve.p()
+        L = (p.bit_length() + 7) // 8
+        bl = (N.bit_length() + 7) // 8
+        ds = [1, N - 1, 255, (1 << (8 * (bl - 1))) - 1] if tier == "quick" else [1, 2, N - 1, N - 2, 255, 256, (1 << (8 * (bl - 1))) - 1, (1 << (8 * (bl - 1))), N // 3]
+        for d in ds:
+            if not 1 <= d < N:
+                continue
+            sk = ecdsa.SigningKey.from_secret_exponent(d, cv, hashlib.sha1)
+            vk = sk.verifying_key
+            x, y = vk.pubkey.point.x(), vk.pubkey.point.y()
+            xb, yb = x.to_bytes(L, "big"), y.to_bytes(L, "big")
+            pbs = {"raw": xb + yb, "uncompressed": b"\x04" + xb + yb, "compressed": bytes([2 + (y & 1)]) + xb, "hybrid": bytes([6 + (y & 1)]) + xb + yb}
+            coid = S.enc_oid(cv.oid)
+            pkoid = S.enc_oid((1, 2, 840, 10045, 2, 1))
+
+            def bad(name, args, obs):
+                found.setdefault(name, (args, obs))
+            for enc, pb in pbs.items():
+                n += 1
+                if vk.to_string(enc) != pb:
+                    bad("keys.VerifyingKey.to_string#is-the-SEC1-octet-string", dict(self=Recipe("ecdsa.SigningKey.from_secret_exponent(%d, ecdsa.curves.%s).verifying_key" % (d, cv.name)), encoding=enc), "got %s" % vk.to_string(enc).hex())
+                try:
+                    if ecdsa.VerifyingKey.from_string(pb, cv) != vk:
+                        bad("lemma:C09.public_key_string_roundtrip#same-point", dict(string=pb, curve=Recipe("ecdsa.curves.%s" % cv.name)), "reloaded key differs")
+                except Exception as e:
+                    bad("lemma:C09.public_key_string_roundtrip#reloads", dict(string=pb, curve=Recipe("ecdsa.curves.%s" % cv.name)), "raised %s: %s" % (type(e).__name__, e))
+                if enc == "raw":
+                    continue
+                spki_ = S.enc_seq(S.enc_seq(pkoid + coid) + S.enc_bits(pb, 0))
+                if vk.to_der(enc) != spki_:
+                    bad("keys.VerifyingKey.to_der#is-canonical-SubjectPublicKeyInfo", dict(self=Recipe("ecdsa.SigningKey.from_secret_exponent(%d, ecdsa.curves.%s).verifying_key" % (d, cv.name)), point_encoding=enc), "got %s" % vk.to_der(enc).hex())
+                for loader, blob in ((ecdsa.VerifyingKey.from_der, spki_), (ecdsa.VerifyingKey.from_pem, _pem(spki_, "PUBLIC KEY"))):
+                    n += 1
+                    try:
+                        ok = loader(blob) == vk and loader(blob).curve is cv
+                        obs = "reloaded key differs"
+                    except Exception as e:
+                        ok, obs = False, "raised %s: %s" % (type(e).__name__, e)
+                    if not ok:
+                        bad("lemma:C09.public_key_der_roundtrip#reloads", dict(string=blob), obs)
+                ecpk = S.enc_seq(S.enc_integer(1) + S.enc_octets(d.to_bytes(bl, "big")) + S.enc_ctx(0, coid) + S.enc_ctx(1, S.enc_bits(pb, 0)))
+                p8 = S.enc_seq(S.enc_integer(1) + S.enc_seq(pkoid + coid) + S.enc_octets(ecpk))
+                for fmt, blob, hdr in (("ssleay", ecpk, "EC PRIVATE KEY"), ("pkcs8", p8, "PRIVATE KEY")):
+                    n += 1
+                    if sk.to_der(enc, fmt) != blob:
+                        bad("keys.SigningKey.to_der#is-canonical-ECPrivateKey-or-PKCS8", dict(self=Recipe("ecdsa.SigningKey.from_secret_exponent(%d, ecdsa.curves.%s)" % (d, cv.name)), point_encoding=enc, format=fmt), "got %s" % sk.to_der(enc, fmt).hex())
+                    for loader, b2 in ((ecdsa.SigningKey.from_der, blob), (ecdsa.SigningKey.from_pem, _pem(blob, hdr)), (ecdsa.SigningKey.from_pem, sk.to_pem(enc, fmt))):
+                        try:
+                            k2 = loader(b2)
+                            ok = k2 == sk and k2.curve is cv and k2.to_string() == d.to_bytes(bl, "big")
+                            obs = "reloaded key differs"
+                        except Exception as e:
+                            ok, obs = False, "raised %s: %s" % (type(e).__name__, e)
+                        if not ok:
+                            bad("keys.SigningKey.from_der#private-key-roundtrip", dict(string=b2), obs)
+            n += 1
+            if sk.to_string() != d.to_bytes(bl, "big") or ecdsa.SigningKey.from_string(sk.to_string(), cv) != sk:
+                bad("keys.SigningKey.to_string#fixed-length-big-endian-scalar", dict(self=Recipe("ecdsa.SigningKey.from_secret_exponent(%d, ecdsa.curves.%s)" % (d, cv.name))), "got %s" % sk.to_string().hex())
+    # PEM armour on its own: all residues of the 48-byte line quantum
+    from ecdsa import der as D_
+    for ln in range(0, 200 if tier == "quick" else 400):
+        for pat in (0x00, 0xFF, 0x5A):
+            blob = bytes([pat]) * ln
+            for name in ("PUBLIC KEY", "EC PRIVATE KEY", "PRIVATE KEY"):
+                n += 1
+                pem = D_.topem(blob, name)
+                if D_.unpem(pem) != blob or pem != _pem(blob, name):
+                    bad("der.topem#pem-armour-roundtrip", dict(der=blob, name=name), "unpem(topem(x)) != x or not the canonical 64-column armour")
+    return n, found, [dict(curves=len(curves))]
+
+
+def _pem(blob, name):
+    import base64
+    b64 = base64.b64encode(blob)
+    return ("-----BEGIN %s-----\n" % name).encode() + b"".join(b64[i:i + 64] + b"\n" for i in range(0, len(b64), 64)) + ("-----END %s-----\n" % name).encode()
